@@ -490,7 +490,7 @@ func TestC11(t *testing.T) {
 		return c11Case{Mode: mode, Version: int(g.v), Op: int(g.msg.GetOpCode()), Flags: int(g.flags), Body: hex.EncodeToString(g.body), Expect: &exp}
 	}
 
-	runProp(t, rec, "valid", perShard(evid.Pick(40000, 2400000)), func(rt *rapid.T) c11Case {
+	runProp(t, rec, "valid", perShard(evid.Pick(100000, 2400000)), func(rt *rapid.T) c11Case {
 		g := c11GenMsg(rt)
 		c := mk(g, "valid")
 		rec.Case(g.nontrivialKey(), g.labels()...)
@@ -501,7 +501,7 @@ func TestC11(t *testing.T) {
 	}, c11Check)
 
 	// prefixes: every cut for small bodies, sampled cuts for large ones
-	runProp(t, rec, "prefix", perShard(evid.Pick(12000, 800000)), func(rt *rapid.T) c11Case {
+	runProp(t, rec, "prefix", perShard(evid.Pick(30000, 800000)), func(rt *rapid.T) c11Case {
 		g := c11GenMsg(rt)
 		c := mk(g, "prefix")
 		// where do the leading fields end? (from the reference message, not from the decoder under test)
@@ -548,7 +548,7 @@ func TestC11(t *testing.T) {
 	}, c11Check)
 
 	// field-aware mutations and random byte flips
-	runProp(t, rec, "mutant", perShard(evid.Pick(24000, 1600000)), func(rt *rapid.T) c11Case {
+	runProp(t, rec, "mutant", perShard(evid.Pick(60000, 1600000)), func(rt *rapid.T) c11Case {
 		g := c11GenMsg(rt)
 		c := mk(g, "mutant")
 		b := append([]byte(nil), g.body...)
@@ -593,7 +593,7 @@ func TestC11(t *testing.T) {
 	}, c11Check)
 
 	// arbitrary bytes for every (version, opcode)
-	runProp(t, rec, "bytes", perShard(evid.Pick(24000, 1600000)), func(rt *rapid.T) c11Case {
+	runProp(t, rec, "bytes", perShard(evid.Pick(60000, 1600000)), func(rt *rapid.T) c11Case {
 		v := protogen.Version(rt)
 		op := []primitive.OpCode{primitive.OpCodeQuery, primitive.OpCodeExecute, primitive.OpCodeBatch}[rapid.IntRange(0, 2).Draw(rt, "op")]
 		b := rapid.SliceOfN(rapid.Byte(), 0, 80).Draw(rt, "bytes")
